@@ -18,7 +18,9 @@ Record MathFacts (P : Params) : Prop := {
   mf_neg_oc : forall A, oc P A -> oc P (pneg P A);
   mf_neg : forall A, oc P A -> padd P A (pneg P A) = None;
   mf_G : oc P (G P) /\ G P <> None;
-  mf_ord : pmul P (cn P) (G P) = None
+  mf_ord : pmul P (cn P) (G P) = None;
+  (* the group of curve points has (prime) order n: cofactor 1 *)
+  mf_cofactor : forall Q, oc P Q -> pmul P (cn P) Q = None
 }.
 
 (* Consequences of the primality of n and p for the Fermat-style inverse used by the model
